@@ -60,7 +60,6 @@ RtPremise(e) ==
   /\ \A n \in lo..Len(seg.fields) :
         /\ FieldWithin(e, seg.fields[n], n)
         /\ \A x \in FieldLeaves(seg.fields[n]) : LeafOk(e, x.t)
-        /\ \A r \in 1..Len(seg.fields[n]) : Len(seg.fields[n]) = 1 \/ ~EmptyRep(seg.fields[n][r])   \* no empty repetition
 RtVerdict(e) == IF e.outcome # "ok" THEN "raised" ELSE IF e.out # e.text THEN "text_changed" ELSE "ok"
 
 (* ---------------- C07: the message's delimiter set governs its whole encoding ---------------- *)
